@@ -585,6 +585,18 @@ func (re *Regexp) GroupNameFromNumber(i int) string {
 	return ""
 }
 
+// groupNameFromIndex is GroupNameFromNumber for a position in the list of groups
+// (GetGroupNames order) instead of a group number.
+func (re *Regexp) groupNameFromIndex(i int) string {
+	if re.capslist == nil {
+		return strconv.Itoa(i)
+	}
+	if i >= 0 && i < len(re.capslist) {
+		return re.capslist[i]
+	}
+	return ""
+}
+
 // GroupNumberFromName returns a group number that corresponds to a group name.
 // Returns -1 if the name is not a recognized group name. Numbered groups
 // automatically get a group name that is the decimal string equivalent of its
